@@ -30,19 +30,29 @@ let snap (fl : M.flavour) (s : M.state) : string =
     (sz o.M.os_options) (sz o.M.os_extra_sig) (sz o.M.os_extra_id) (if o.M.os_comment then 1 else 0)
 
 let bind_atomic = ref false
+let has_base = ref false
 
-let relkind (k : string) : M.relkind =
+let relkind (k : string) (disp : string) (rid : string) : M.relkind =
+  let r = int_of_string rid in
+  let rok = r < 31 || r = 63 in     (* check_gp_id(o0, kZR) *)
   match k with
-  | "0" -> M.X86Jmp | "1" -> M.X86Jcc | "2" -> M.X86Call | "3" -> M.X86Lea false | "4" -> M.X86Lea true
-  | "5" | "6" -> M.A64Rel (zi 26, zi 2) | "7" | "8" | "11" -> M.A64Rel (zi 19, zi 2) | "9" -> M.A64Rel (zi 14, zi 2)
-  | "10" -> M.A64Rel (zi 21, zi 0)
+  | "0" -> M.X86Jmp | "1" -> M.X86Jcc | "2" -> M.X86Call | "3" -> M.X86Lea (false, zs disp) | "4" -> M.X86Lea (true, zs disp)
+  | "5" | "6" -> M.A64Rel (zi 26, zi 2, true) | "7" -> M.A64Rel (zi 19, zi 2, true)
+  | "8" | "11" -> M.A64Rel (zi 19, zi 2, rok) | "9" -> M.A64Rel (zi 14, zi 2, rok)
+  | "10" -> M.A64Rel (zi 21, zi 0, rok)
   | _ -> failwith "relkind"
 
 let parse_cmd (ar : M.arch) (st : M.state) (t : string list) : M.cmd =
   match t with
-  | ["J"; k; id] -> M.rel_cmd ar st (relkind k) (zs id)
+  | ["J"; k; id; disp; rid] -> M.rel_cmd ar st (relkind k disp rid) (zs id)
+  | ["V"; instid; vt; dst; mask; dsize; bt; bid; it; iid; sh; seg; addr; size; off] ->
+    (match M.vsib_cmd ar (zs instid) { M.v_type = zs vt; v_dst = zs dst; v_mask = zs mask; v_dsize = zs dsize;
+                                         v_mem = { M.m_dst = zi 0; m_btype = zs bt; m_bid = zs bid; m_itype = zs it; m_iid = zs iid; m_shift = zs sh;
+                                                   m_seg = zs seg; m_addr = zs addr; m_size = zs size; m_off = zs off } } with
+     | Some c -> c
+     | None -> failwith "vsib path: stuck or unsupported form")
   | ["K"; addid; dst; bt; bid; it; iid; sh; seg; addr; size; off] ->
-    (match M.mem_cmd ar (zs addid) { M.m_dst = zs dst; m_btype = zs bt; m_bid = zs bid; m_itype = zs it; m_iid = zs iid; m_shift = zs sh;
+    (match M.mem_cmd ar !has_base st (zs addid) { M.m_dst = zs dst; m_btype = zs bt; m_bid = zs bid; m_itype = zs it; m_iid = zs iid; m_shift = zs sh;
                                        m_seg = zs seg; m_addr = zs addr; m_size = zs size; m_off = zs off } with
      | Some c -> c
      | None -> failwith "mem path: stuck or unsupported form")
@@ -50,12 +60,13 @@ let parse_cmd (ar : M.arch) (st : M.state) (t : string list) : M.cmd =
   | ["X"; a; b] -> M.CSetExtra (zs a, zs b)
   | ["M"] -> M.CSetComment
   | ["RS"] -> M.CResetState
-  | ["I"; "ok"; nb; fixl; linked; dr; da; ds] ->
-    M.CInst (M.EncOk (zs nb, (if fixl = "-1" then None else Some (zs fixl)), linked = "1", zs dr, zs da, zs ds))
+  | ["I"; "ok"; nb; fixl; linked; dr; da; ds; foff; frel; fbits; fdis] ->
+    M.CInst (M.EncOk (zs nb, (if fixl = "-1" then None else Some { M.fr_label = zs fixl; fr_offset = zs foff; fr_rel = zs frel; fr_bits = zs fbits; fr_discard = zs fdis }),
+                      linked = "1", zs dr, zs da, zs ds))
   | ["I"; "err"; e] -> M.CInst (M.EncErr (zs e))
   | ["L"] -> M.CNewLabel
   | ["NL"; nl; ty; pa; dup] -> M.CNewNamedLabel (zs nl, zs ty, zs pa, dup = "1")
-  | ["B"; id; pf] -> if !bind_atomic then M.CBindAtomic (zs id, zs pf) else M.CBind (zs id, zs pf)
+  | ["B"; id; pf] -> M.CBindAtomic (zs id, zs pf)   (* the count of unpatchable fixups is computed by the model; pf (the code's own count) is ignored *)
   | ["A"; m; n] -> M.CAlign (zs m, zs n)
   | ["E"; n] -> M.CEmbed (zs n)
   | ["EL"; id; s] -> M.CEmbedLabel (zs id, zs s)
@@ -82,6 +93,7 @@ let () =
         ar := (match field t "arch" with "0" -> M.X86_32 | "1" -> M.X86_64 | _ -> M.A64);
         h := (match field t "h" with "0" -> M.HNone | "1" -> M.HReturn | "2" -> M.HRecord | _ -> M.HThrow);
         let i = M.init_state in
+        has_base := (field t "abs" = "1");
         let labs = field t "lab" in
         let nlab = if labs = "-" then 0 else List.length (String.split_on_char ',' labs) in
         st := { i with M.st_nodes = zs (field t "nod"); M.st_labels = List.init nlab (fun _ -> M.LUnbound (if field t "fm" = "1" then M.node_active_mark else [])) };   (* the labels a session starts with are the function's entry/exit labels: their nodes are in the list *)
